@@ -105,7 +105,13 @@ def load_value(load, k, t, theta, w):
 # real side
 # ---------------------------------------------------------------------------
 def Q(cls, q):
-    return None if q is None else cls(q[0], q[1])
+    """[value, unit] -> quantity;  [value, unit, 'inplace', unit2] -> built in `unit`, then converted in place to unit2"""
+    if q is None:
+        return None
+    obj = cls(q[0], q[1])
+    if len(q) == 4 and q[2] == 'inplace':
+        obj.to(q[3], inplace=True)
+    return obj
 
 
 def make_element(e, name):
@@ -336,6 +342,24 @@ def run_schedule(spec, schedule, names=None):
         elif op[0] == 'newsolver':
             m.new_solver()
             locked_carry = False
+        elif op[0] == 'redeclare':
+            # ('redeclare', i, link): the relation between elements i and i+1 is declared again (same Solver, same Powertrain)
+            _, i, link = op
+            try:
+                declare(m.elements[i], m.elements[i + 1], link)
+            except Exception as e:
+                info['error'] = (type(e).__name__, 'redeclare: ' + str(e)[:200], len(info['runs']))
+                break
+            import copy as _copy
+            spec = _copy.deepcopy(m.spec)
+            spec['links'][i] = link
+            m.spec = spec
+            info.setdefault('spec_changes', []).append((len(m.pt.time), spec))
+        elif op[0] == 'reinit':
+            # ('reinit', init): the user sets the initial conditions again, possibly written in other units
+            last = m.elements[-1]
+            last.angular_position = Q(AngularPosition, op[1]['theta'])
+            last.angular_speed = Q(AngularSpeed, op[1]['w'])
         elif op[0] == 'setpwm':
             m.elements[0].pwm = op[1]
     return m, info
@@ -355,3 +379,9 @@ def determinism_selfcheck():
     if repr(a) != repr(b):
         raise SystemExit('determinism self-check failed: the same history gave two different observations')
     return len(a['time'])
+
+
+def slice_obs(obs, a, b):
+    """Observation restricted to instants a..b-1."""
+    return {'time': obs['time'][a:b],
+            'el': [{var: ser[a:b] for var, ser in e.items()} for e in obs['el']]}
